@@ -301,6 +301,23 @@ func (t *Transaction) Insert(op *ovsdb.Operation) (ovsdb.OperationResult, *updat
 		return ovsdb.ResultFromError(err), nil
 	}
 
+	// The uuid must be free: not used by a row this transaction created, nor
+	// by a row of the database unless this transaction deleted it. Nothing
+	// else notices a clash before Commit, which would then fail half way
+	// through, after the monitors were notified.
+	inUse := t.Cache.Table(op.Table) != nil && t.Cache.Table(op.Table).HasRow(op.UUID)
+	if _, deleted := t.DeletedRows[op.UUID]; !inUse && !deleted {
+		existing, err := t.Database.Get(t.DbName, op.Table, op.UUID)
+		if err != nil {
+			return ovsdb.ResultFromError(err), nil
+		}
+		inUse = existing != nil
+	}
+	if inUse {
+		err := ovsdb.NewConstraintViolation(fmt.Sprintf("cannot insert row %s in table %s: a row with that UUID already exists", op.UUID, op.Table))
+		return ovsdb.ResultFromError(err), nil
+	}
+
 	update := updates.ModelUpdates{}
 	err := update.AddOperation(t.Model, op.Table, op.UUID, nil, op)
 	if err != nil {
